@@ -510,6 +510,7 @@ class CIMDateTime(_CIMComparisonMixin, CIMType):
         elif isinstance(dtarg, CIMDateTime):
             self.__datetime = copy.copy(dtarg.datetime)
             self.__timedelta = copy.copy(dtarg.timedelta)
+            self.__precision = dtarg.precision
         else:
             raise TypeError(
                 _format("dtarg argument {0!A} has an invalid type: {1} "
